@@ -181,7 +181,8 @@ pub fn fault_case_ext(dir: &std::path::PathBuf, word: &[usize], leave_after: Opt
         println!("after start: {}", desc(&w));
     }
     if w.peers[0].connects != 1 || w.peers[1].connects != 1 || w.peers[3].connects != 1 {
-        return (steps, Some(("MACHINERY", format!("first announce did not lead to connections: {}", desc(&w)))));
+        // the empty fault word: the very first reply is good and lists P, Q, S (binary peer ids)
+        return (steps, Some(("listed-peers-not-contacted-after-recovery", format!("the first announce was answered with a good reply listing three peers, but they were not contacted: {}", desc(&w)))));
     }
     let idp = w.peers[0].cfg.id;
     let idq = w.peers[1].cfg.id;
@@ -306,7 +307,7 @@ pub fn budget_case(dir: &std::path::PathBuf, j: usize, word: &[usize], verbose: 
     let hs = |w: &FullWorld, i: usize| refwire::encode(&refwire::handshake(t.meta.info_hash(), &w.peers[i].cfg.id));
     let desc = |w: &FullWorld| format!("announces={} connects={:?} session={}", w.announces.borrow().len(), w.peers.iter().map(|p| p.connects).collect::<Vec<_>>(), w.session_key());
     if (0..=10).any(|i| w.peers[i].connects != 1) {
-        return (steps, Some(("MACHINERY", format!("first announce did not lead to 11 connections: {}", desc(&w)))));
+        return (steps, Some(("listed-peers-not-contacted-after-recovery", format!("the first announce was answered with a good reply listing 11 peers, but they were not all contacted: {}", desc(&w)))));
     }
     for i in 0..=10 {
         let b = hs(&w, i);
